@@ -128,6 +128,7 @@ def check(ctx):
                 break
 
     facade_cutoff_recovery(ctx, np.random.default_rng(ctx.seed + 31))
+    pair_model_recovery(ctx, np.random.default_rng(ctx.seed + 32))
     # ---- recovery of ground truths
     nbatch_settings = [None] if ctx.quick else [None, 2]
     for cname, diag in solver_cells(ctx.quick):
@@ -266,5 +267,50 @@ def facade_cutoff_recovery(ctx, rng):
                     err = float(np.abs(o.force_constants[m] - truth[m]).max() / max(np.abs(truth[m]).max(), 1e-300))
                     if not err <= 1e-6:
                         ctx.fail("oracle", "C05/oracle/recovery-facade-cutoff", f"{sc['name']} cutoff {cfg} orders {orders}: admissible fc{m} (basis set of order {m} built with its own radius) is not recovered through the facade (relative error {err:.2e})",
+                                 replay={**rep, "order": m, "rel_err": err}, has_input=True)
+                        break
+
+
+def pair_model_recovery(ctx, rng):
+    """Ground truth independent of the library: force constants of orders 2 and 3 derived from a periodic pair-potential energy
+    (harness/pairmodel.py), forces from the Taylor expansion of those tensors, fit through the facade; supercells of 16-54 atoms,
+    full and compact output."""
+    from symfc import Symfc
+    from gens import atoms_of, base_cells, make_supercell
+    from pairmodel import pair_tensor
+
+    cells = [("bcc_conv", (2, 2, 2), True), ("hcp", (3, 3, 1), True)]
+    if not ctx.quick:
+        cells += [("fcc_conv", (2, 2, 2), True), ("bcc_conv", (3, 3, 2), False), ("wurtzite", (3, 3, 1), True), ("bcc_conv", (3, 3, 3), True)]
+    for cname, diag, shuffle in cells:
+        sc = make_supercell(base_cells()[cname], diag, rng=rng, shuffle=shuffle)
+        N = len(sc["numbers"])
+        at = atoms_of(sc)
+        truth = {m: pair_tensor(m, sc["lattice"], sc["positions"], sc["numbers"]) for m in (2, 3)}
+        o0 = Symfc(at).compute_basis_set(orders=[2, 3])
+        ncoef = sum(o0.basis_set[m].basis_set.shape[1] for m in (2, 3))
+        n = 2 * int(np.ceil(ncoef / (3 * N))) + 6
+        d = rng.normal(size=(n, N, 3)) * 0.1
+        f = forces_from_fc(truth, d)
+        for orders in ((2, 3),):
+            for compact in (False, True):
+                ctx.case({"pair_model_recovery": sc["name"], "N": N, "orders": list(orders), "compact": compact, "n_snap": n, "n_coef": int(ncoef)}, nontrivial=True)
+                ctx.count("recovery-pair-model")
+                rep = {"cell": sc["name"], "lattice": np.asarray(sc["lattice"]).tolist(), "positions": np.asarray(sc["positions"]).tolist(), "numbers": [int(z) for z in sc["numbers"]],
+                       "orders": list(orders), "compact": compact, "truth": "derivatives of the pair-potential energy of harness/pairmodel.py"}
+                try:
+                    o = Symfc(at, displacements=d, forces=f)
+                    o.basis_set = dict(o0.basis_set)
+                    o.solve(orders=list(orders), is_compact_fc=compact)
+                except np.linalg.LinAlgError:
+                    ctx.count("skipped-singular")
+                    continue
+                p2s = list(map(int, o0.basis_set[2].p2s_map))
+                for m in orders:
+                    exp = truth[m][p2s] if compact else truth[m]
+                    got = np.asarray(o.force_constants[m])
+                    err = float(np.abs(got - exp).max() / max(np.abs(exp).max(), 1e-300)) if got.shape == exp.shape else float("inf")
+                    if not err <= 1e-7:
+                        ctx.fail("oracle", "C05/oracle/recovery-pair-model", f"{sc['name']} (N={N}) orders {orders} {'compact' if compact else 'full'}: fc{m} of a pair-potential model is not recovered from its exact Taylor forces (relative error {err:.2e})",
                                  replay={**rep, "order": m, "rel_err": err}, has_input=True)
                         break
